@@ -224,6 +224,7 @@ type c05Op struct {
 	DS     []string `json:"ds,omitempty"`
 	IDs    []string `json:"ids,omitempty"`
 	Tag    string   `json:"tag,omitempty"`
+	Sync   int      `json:"sync,omitempty"` // rendezvous number: all writers arrive at this op together (bounded wait)
 }
 
 type c05Case struct {
@@ -231,6 +232,7 @@ type c05Case struct {
 	Readers  int     `json:"readers"`
 	Ops      [][]c05Op `json:"ops"` // per client
 	Datasets []string `json:"datasets"`
+	Shared   []string `json:"shared,omitempty"` // datasets that several writers create at the same rendezvous
 }
 
 const c05PairID = gen.NsA + "pair"  // written only by transactions, to both datasets, same tag
@@ -258,6 +260,21 @@ func genC05Case(r *rand.Rand, clients, readers, opsPer int) c05Case {
 				default:
 					ops = append(ops, c05Op{Client: cl, Kind: "feed", DS: []string{c.Datasets[r.Intn(3)]}})
 				}
+				continue
+			}
+			// rendezvous ops: every writer does the same kind of thing at the same op index
+			if i%5 == 3 {
+				// brand-new URIs mentioned by all writers at once, in different datasets
+				var l []string
+				for j := 0; j < 10; j++ {
+					l = append(l, fmt.Sprintf("%sfresh-%d-%d", gen.NsA, i, j))
+				}
+				ops = append(ops, c05Op{Client: cl, Kind: "batch", DS: []string{c.Datasets[cl%3]}, IDs: l, Tag: tag, Sync: i})
+				continue
+			}
+			if i%10 == 7 {
+				// a new dataset name created (and written once) by all writers at once
+				ops = append(ops, c05Op{Client: cl, Kind: "mkds", DS: []string{fmt.Sprintf("sh%d", i)}, IDs: []string{fmt.Sprintf("%sw%d", gen.NsA, cl)}, Tag: tag, Sync: i})
 				continue
 			}
 			switch k := r.Intn(100); {
@@ -294,6 +311,9 @@ func genC05Case(r *rand.Rand, clients, readers, opsPer int) c05Case {
 			}
 		}
 		c.Ops = append(c.Ops, ops)
+	}
+	for i := 7; i < opsPer; i += 10 {
+		c.Shared = append(c.Shared, fmt.Sprintf("sh%d", i))
 	}
 	return c
 }
@@ -402,6 +422,7 @@ func runC05Case(ctx *Ctx, c c05Case) {
 	var wg sync.WaitGroup
 	start := make(chan struct{})
 	var fatal atomic.Value
+	rendezvous := &c05Barrier{waiting: map[int]chan struct{}{}, count: map[int]int{}}
 	for cl := range c.Ops {
 		wg.Add(1)
 		recs[cl] = make([]*c05Rec, 0, len(c.Ops[cl]))
@@ -411,6 +432,9 @@ func runC05Case(ctx *Ctx, c c05Case) {
 			for _, op := range c.Ops[cl] {
 				rec := &c05Rec{op: op}
 				recs[cl] = append(recs[cl], rec)
+				if op.Sync > 0 {
+					rendezvous.arrive(op.Sync, c.Clients)
+				}
 				rec.call = now()
 				func() {
 					defer func() {
@@ -543,6 +567,14 @@ loop:
 	}
 	if prop == "C03" || prop == "C05" {
 		c05FinalRelations(ctx, id, prop, core, c)
+	}
+	if prop == "C05" || prop == "C19" {
+		c05SharedDatasets(ctx, id, prop, core, c, recs)
+	}
+	if prop == "C05" {
+		if msg := crossIndexInvariant(core); msg != "" {
+			ctx.Out.Viol(id, "C05", "cross-index-"+strings.SplitN(msg, ":", 2)[0], "raw key scan at the final quiescent point of the concurrent history: "+msg, nil, nil, nil)
+		}
 	}
 	if prop == "C04" {
 		if msg := crossIndexInvariant(core); msg != "" {
@@ -1106,4 +1138,75 @@ func c05FinalRelations(ctx *Ctx, id, prop string, core *hub.Core, c c05Case) {
 		}
 	}
 	ctx.Out.Stat("final_relation_queries_vs_feed", int64(n))
+}
+
+// c05Barrier lets the writers arrive at a rendezvous op together. The wait is bounded (a writer that is blocked in
+// the hub, or gone, must not hold the others for ever); the bound only shapes the workload, it decides nothing.
+type c05Barrier struct {
+	mu      sync.Mutex
+	waiting map[int]chan struct{}
+	count   map[int]int
+}
+
+func (b *c05Barrier) arrive(n, parties int) {
+	b.mu.Lock()
+	ch := b.waiting[n]
+	if ch == nil {
+		ch = make(chan struct{})
+		b.waiting[n] = ch
+	}
+	b.count[n]++
+	if b.count[n] == parties {
+		close(ch)
+	}
+	b.mu.Unlock()
+	select {
+	case <-ch:
+	case <-time.After(2 * time.Second):
+	}
+}
+
+// c05SharedDatasets: a dataset name that several writers created at the same moment exists once, and the one write
+// each creator made right after its own successful create is in that dataset's feed, found by a scoped lookup and
+// counted.
+func c05SharedDatasets(ctx *Ctx, id, prop string, core *hub.Core, c c05Case, recs [][]*c05Rec) {
+	st := core.Store
+	for _, d := range c.Shared {
+		acked := map[string]string{} // tag -> entity id
+		for _, rs := range recs {
+			for _, r := range rs {
+				if r.op.Kind == "mkds" && r.op.DS[0] == d && r.done && r.err == "" {
+					acked[r.op.Tag] = r.op.IDs[0]
+				}
+			}
+		}
+		if len(acked) == 0 {
+			continue
+		}
+		ds := core.Dsm.GetDataset(d)
+		if ds == nil {
+			ctx.Out.Viol(id, prop, "concurrently-created-dataset-missing", fmt.Sprintf("%d writers created dataset %s at the same moment and wrote to it without error; the dataset does not exist", len(acked), d), nil, nil, nil)
+			return
+		}
+		feed, _, err := obs.Feed(st, ds, 0, nil, false)
+		if err != nil {
+			continue
+		}
+		inFeed := map[string]bool{}
+		for i := range feed {
+			inFeed[tagOf(&feed[i])] = true
+		}
+		for tag, eid := range acked {
+			if !inFeed[tag] {
+				ctx.Out.Viol(id, prop, "acked-write-lost-after-concurrent-create", fmt.Sprintf("dataset %s was created by %d writers at the same moment; the acknowledged write %s (entity %s) made right after one of the creates is not in the dataset's feed (%d entries)", d, len(acked), tag, eid, len(feed)), tag, recStr(feed), nil)
+				return
+			}
+			if r, _ := obs.Lookup(st, eid, []string{d}); r == nil || tagOf(r) != tag {
+				ctx.Out.Viol(id, prop, "acked-write-lost-after-concurrent-create", fmt.Sprintf("dataset %s: scoped lookup of %s does not return the acknowledged write %s", d, eid, tag), tag, tagOf(r), nil)
+				return
+			}
+		}
+		ctx.Out.Stat("concurrently_created_datasets_checked", 1)
+		ctx.Out.Stat("writes_after_concurrent_create_checked", int64(len(acked)))
+	}
 }
